@@ -341,12 +341,25 @@ def run_fuzz_shards(pid, tier, seed, fz, active_ids):
                                                 text=True)))
     res = []
     err = None
+    stopped = []
     for i, outp, p in procs:
+        timed_out = False
         try:
             txt, _ = p.communicate(timeout=fz["wall"] + 300)
         except subprocess.TimeoutExpired:
             p.kill()
             txt, _ = p.communicate()
+            timed_out = True
+        if timed_out and os.path.exists(outp):
+            # the shard did not come back from one case within its wall budget plus five minutes (the budget is
+            # looked at between cases): what it had recorded up to then counts, the rest is inconclusive - a time
+            # budget that is hit is never a violation and not a harness error either
+            with open(outp) as f:
+                r = json.load(f)
+            r["budget_exhausted"] = True
+            res.append(r)
+            stopped.append(i)
+            continue
         if p.returncode != 0 or not os.path.exists(outp):
             err = "shard %d exited with %s\n%s" % (i, p.returncode, (txt or "")[-3000:])
             continue
@@ -358,6 +371,8 @@ def run_fuzz_shards(pid, tier, seed, fz, active_ids):
         return None, err
     note = "%d libFuzzer shards over Hypothesis' byte stream (atheris, modelx instrumented): %d cases, %d failures" % (
         len(res), sum(r["evaluations"] for r in res), sum(len(r["failures"]) for r in res))
+    if stopped:
+        note += "; shard(s) %s stopped after exceeding the wall budget by five minutes inside one case (inconclusive)" % stopped
     return res, note
 
 
